@@ -22,7 +22,10 @@ rewards = st.one_of(st.floats(-10, 10, allow_nan=False), st.sampled_from([0.0, 1
 @st.composite
 def agent_cases(draw):
     n = draw(st.integers(1, 8))
-    alpha = draw(st.one_of(st.just(-1), st.floats(0.001, 1.0, allow_nan=False), st.sampled_from([0.1, 0.5, 1.0])))
+    # the sentinel is the number -1 itself (int or float); anything else, however close, is a constant rate
+    alpha = draw(st.one_of(st.just(-1), st.floats(0.001, 1.0, allow_nan=False), st.sampled_from([0.1, 0.5, 1.0]),
+                           st.sampled_from([-1.0, -0.9999999999, -1.0000000001, float(np.nextafter(-1.0, 0.0)),
+                                            float(np.nextafter(-1.0, -2.0)), 1, 1e-12])))
     eps = draw(st.one_of(st.sampled_from([0.0, 1.0, 0.1, 0.5]), st.floats(0, 1, allow_nan=False)))
     init = draw(st.sampled_from([0.0, 0.0, 1.0, -1.0, 5.5, 0, 1, 2]))   # ints too: 'optimistic initial values' are often written 1
     seed = draw(st.integers(0, 2**31 - 1))
